@@ -54,7 +54,7 @@ def judge(lines, meta, go_bin, drv, model):
             if res[0] != "2":
                 problems.append(("result", res[0] + " (0 nil,1 bp,2 ctx err,3 did not return in 5 s,4 panic,5 other error)", "2 (the context's error)"))
             if res[1] != "0":
-                problems.append(("delay", "more than 1 s after cancellation", "bounded"))
+                problems.append(("delay", "more than 3 s after cancellation", "bounded"))
             todo.append((i, l))
         if problems:
             bad.append((i, l, problems))
@@ -140,7 +140,7 @@ def run(tier, seed):
            "theorems_closed_under_global_context": pr["closed"], "axioms": pr["axioms"],
            "evaluations": len(lines), "distinct_nontrivial": len(set(" ".join(l.split()[2:]) for l in lines)),
            "rule": "non-terminating programs (jump loop, LDIR loop, I/O loop, DI + pending maskable request) x cancellation before / 1-12 ms into the call, and terminating programs "
-                   "with repeated Run calls; checks: returns the context error, within 1 s, state = start advanced by a whole number of Steps (model advanced to the same access count), "
+                   "with repeated Run calls; checks: returns the context error, within 3 s of the cancellation, state = start advanced by a whole number of Steps (model advanced to the same access count), "
                    "no goroutine left behind; all cases are non-trivial (each calls Run)",
            "distribution": dist, "samples": lines[:1], "partial": "wall-clock bounds, scheduler and race freedom are runtime behaviour: harness evidence only",
            "race_detector": race}
